@@ -302,6 +302,16 @@ def inline(fn_node, expr, depth=6, _stack=()):
                 if len(vals) == 1 and isinstance(vals[0], ast.expr):
                     v = vals[0]
                     if isinstance(v, ast.Call) and isinstance(v.func, ast.Name) and v.func.id in ("<iter>", "<with>"):
+                        # loop / with variables get a positional placeholder (their order of appearance in the function)
+                        order = []
+                        for w in sorted([x for x in walk_fn(fn_node) if isinstance(x, (ast.For, ast.With))], key=lambda x: (x.lineno, x.col_offset)):
+                            tg = [w.target] if isinstance(w, ast.For) else [i.optional_vars for i in w.items if i.optional_vars is not None]
+                            for t_ in tg:
+                                for e in ast.walk(t_):
+                                    if isinstance(e, ast.Name) and e.id not in order:
+                                        order.append(e.id)
+                        if n.id in order:
+                            return ast.Name(id=f"_it{order.index(n.id)}", ctx=ast.Load())
                         return n
                     if n.id in names_in(v):
                         return n
